@@ -700,16 +700,6 @@ theorem counter_items_sorted (h : List Bytes) (less : NVLess)
     rw [inv.items k, if_pos this]; rfl
   rw [List.map_congr_left hval]
 
-theorem filterMap_keys {α : Type} (m : List (Bytes × α)) (ks : List Bytes) (h : ∀ k ∈ ks, (aget m k).isSome = true) :
-    (ks.filterMap fun k => (aget m k).map fun v => (k, v)).map (·.1) = ks := by
-  induction ks with
-  | nil => rfl
-  | cons k ks ih =>
-    have hk := h k (by simp)
-    obtain ⟨v, hv⟩ := Option.isSome_iff_exists.mp hk
-    simp only [List.filterMap_cons, hv, Option.map_some, List.map_cons]
-    rw [ih (fun k' hk' => h k' (List.mem_cons_of_mem _ hk'))]
-
 /-- Sub-key counter: `ItemsSorted(sorter)` lists every key exactly once, in sorted order, whatever the map order. -/
 theorem subkey_items_sorted (s : SubKeyCounter) (less : NVLess) (hst : StrictTotal (keyLess less s.countOf))
     (order : List Bytes) (hp : order.Perm (akeys s.items)) :
